@@ -22,7 +22,7 @@ class ItemNames(ast.NodeTransformer):
         self.dynamic = False
 
     def visit_Subscript(self, node):
-        if A.text(node.value) != "self.items":
+        if A.text(node.value) not in ("self.items", "self.children"):
             self.generic_visit(node)
             return node
         if isinstance(node.ctx, ast.Load):
@@ -38,7 +38,7 @@ class ItemNames(ast.NodeTransformer):
 
     def visit_Attribute(self, node):
         self.generic_visit(node)
-        if A.text(node) == "self.items" and isinstance(node.ctx, ast.Load):
+        if A.text(node) in ("self.items", "self.children") and isinstance(node.ctx, ast.Load):
             return ast.copy_location(ast.Tuple(elts=[ast.Name(id="__item_%d" % k, ctx=ast.Load()) for k in range(self.n)], ctx=ast.Load()), node)
         return node
 
@@ -233,4 +233,230 @@ def optional_rule(m, rid, exceptions=None):
                                       "AttributeError/TypeError escapes from str(tree)" if kind == "dereferenced" else
                                       "the text 'None' appears in the regenerated source"), m.loc(gf, use))
     r.notes.append("classes whose matcher has an undetermined return besides the determined ones: %d" % n_open)
+    return r
+
+
+# =================================================================================================
+# the dual: an element that holds content in a given pattern is printed on every printer path taken for that pattern
+# =================================================================================================
+class UsedClient(F.Client):
+    def __init__(self, names, alias, lit_only=()):
+        self.track = set(names) | {"$u%d" % i for i in range(len(names))} | set(alias)
+        self.alias = alias            # local name -> item index
+        self.n = len(names)
+        self.lit_only = set(lit_only)  # elements that are a literal or None: testing them and printing a constant is "printing" them
+        self.exits = []               # (unused index set, return stmt)
+
+    def call_raises(self, call, st):
+        return ()
+
+    def _value_uses(self, root):
+        """item indices used in value position inside the expression root."""
+        out = set()
+        P = A.parents(root)
+        for n in ast.walk(root):
+            if not (isinstance(n, ast.Name) and isinstance(n.ctx, ast.Load)):
+                continue
+            k = None
+            if n.id.startswith("__item_"):
+                k = int(n.id[7:])
+            elif n.id in self.alias:
+                k = self.alias[n.id]
+            if k is None:
+                continue
+            x, test_pos = n, False
+            while x in P:
+                p_ = P[x]
+                if isinstance(p_, ast.Compare) or (isinstance(p_, ast.UnaryOp) and isinstance(p_.op, ast.Not)) or \
+                        (isinstance(p_, ast.IfExp) and x is p_.test):
+                    test_pos = True
+                if isinstance(p_, ast.Call) and A.dotted(p_.func) in ("isinstance", "len", "type"):
+                    test_pos = True
+                x = p_
+            if not test_pos:
+                out.add(k)
+        return out
+
+    def stmt_effect(self, s, st):
+        v = getattr(s, "value", None)
+        # `a, b = self.items` / `x = self.items[1]` only give the elements local names
+        if isinstance(s, ast.Assign) and (isinstance(v, ast.Name) or
+                                          (isinstance(v, (ast.Tuple, ast.List)) and all(isinstance(e, ast.Name) for e in v.elts))):
+            return st
+        if isinstance(v, ast.AST):
+            for k in self._value_uses(v):
+                st = st.set("$u%d" % k, F.TRUE)
+        return st
+
+    def on_test(self, test, st):
+        """literal-or-None elements: the branch taken after testing them prints the constant"""
+        return st
+
+    def on_stmt(self, stmt, st):
+        if isinstance(stmt, ast.Return) and stmt.value is not None:
+            used = {i for i in range(self.n) if st.get("$u%d" % i) == F.TRUE} | self._value_uses(stmt.value)
+            # a delegation to another printer on `self` prints everything that printer prints
+            if any(isinstance(c, ast.Call) and isinstance(c.func, ast.Attribute) and c.func.attr in ("tostr", "tofortran")
+                   for c in ast.walk(stmt.value)):
+                used = set(range(self.n))
+            self.exits.append((frozenset(set(range(self.n)) - used), stmt))
+
+
+class UsedFlow(F.Flow):
+    """When the WHOLE test of a branch is the truthiness of a literal-or-None element, the branch taken when it is truthy prints
+    the corresponding constant: the element counts as printed there.  (A test that is only one operand of and/or does not.)"""
+    _depth = 0
+
+    def split(self, test, st, out=None):
+        top = self._depth == 0
+        self._depth += 1
+        try:
+            ts, fs = F.Flow.split(self, test, st, out)
+        finally:
+            self._depth -= 1
+        if top and isinstance(test, ast.Name):
+            k = int(test.id[7:]) if test.id.startswith("__item_") else self.c.alias.get(test.id)
+            if k is not None and k in self.c.lit_only:
+                ts = {s_.set("$u%d" % k, F.TRUE) for s_ in ts}
+        return ts, fs
+
+
+def printed_rule(m, rid, exceptions=None):
+    from sa import shapes as SH
+    from sa.callgraph import CallGraph
+    from rules import shapes_rules
+    r = RuleResult(rid, "for every None-pattern a matcher can return, each element that holds content in that pattern is printed on every "
+                        "printer path taken for it (an optional ',' or clause is not lost on one branch)")
+    r.floor = 100
+    exceptions = dict(shapes_rules.UNPRINTED_OK) if exceptions is None else exceptions
+    cg = CallGraph(m)
+    S = SH.Shapes(m, cg)
+    base, block = m.key("Base", UTILS), m.key("BlockBase", UTILS)
+    for k in sorted(m.classes):
+        c = m.classes[k]
+        if not m.issub(k, base) or m.issub(k, block):
+            continue
+        mf, pf = m.method(k, "match"), m.method(k, "tostr")
+        if mf is None or pf is None or not (m.method_owner(k, "init") or "").endswith(":Base"):
+            continue
+        ss = S.of_func(mf)
+        if not ss.shapes or ss.open:
+            continue
+
+        def may_none(e):
+            return e == "none" or (isinstance(e, tuple) and e and e[0] == "alt" and any(may_none(x) for x in e[1]))
+
+        def may_value(e):
+            return e != "none" and not (isinstance(e, tuple) and e and e[0] == "alt" and not any(may_value(x) for x in e[1]))
+        arities = {len(sh) for sh in ss.shapes}
+        if len(arities) != 1:
+            continue
+        n = arities.pop()
+        # which indices carry information: anything but a literal that is the same in every shape
+        def lits(e):
+            if isinstance(e, tuple) and e and e[0] == "lit":
+                return {e[1]}
+            if isinstance(e, tuple) and e and e[0] == "alt":
+                out = set()
+                for x in e[1]:
+                    lx = lits(x)
+                    if lx is None:
+                        return None
+                    out |= lx
+                return out
+            if e == "none":
+                return {None}
+            return None
+        carrying = set()
+        for i in range(n):
+            vals = set()
+            nonlit = False
+            for sh in ss.shapes:
+                lv = lits(sh[i])
+                if lv is None:
+                    nonlit = True
+                else:
+                    vals |= lv
+            if nonlit or len(vals) > 1:
+                carrying.add(i)
+        lit_only = set()
+        for i in range(n):
+            if all(lits(sh[i]) is not None for sh in ss.shapes):
+                lit_only.add(i)
+        import itertools
+        pats = set()
+        for sh in ss.shapes:
+            choices = [[b for b in ((True,) if may_none(e) else ()) + ((False,) if may_value(e) else ())] for e in sh]
+            tot = 1
+            for ch in choices:
+                tot *= max(1, len(ch))
+            if tot > 64:
+                continue
+            pats |= set(itertools.product(*choices))
+        if not pats:
+            continue
+        r.instances += 1
+        bad = {}
+        for pat in sorted(pats):
+            tr = ItemNames(n)
+            node = tr.visit(copy.deepcopy(pf.node))
+            ast.fix_missing_locations(node)
+            if tr.dynamic:
+                bad = {}
+                break
+            names = ["__item_%d" % i for i in range(n)]
+            alias = {}
+            for x in ast.walk(node):
+                if isinstance(x, ast.Assign) and isinstance(x.targets[0], (ast.Tuple, ast.List)) and isinstance(x.value, ast.Tuple) \
+                        and len(x.targets[0].elts) == len(x.value.elts):
+                    for t, v in zip(x.targets[0].elts, x.value.elts):
+                        if isinstance(t, ast.Name) and isinstance(v, ast.Name) and v.id.startswith("__item_"):
+                            alias[t.id] = int(v.id[7:])
+                if isinstance(x, ast.Assign) and len(x.targets) == 1 and isinstance(x.targets[0], ast.Name) and isinstance(x.value, ast.Name) \
+                        and x.value.id.startswith("__item_"):
+                    alias[x.targets[0].id] = int(x.value.id[7:])
+            # whole-tuple idioms print everything
+            whole = any(isinstance(x, ast.Tuple) and len(x.elts) == n and all(isinstance(e, ast.Name) and e.id == "__item_%d" % i
+                                                                             for i, e in enumerate(x.elts))
+                        and not isinstance(getattr(x, "ctx", None), ast.Store) for x in ast.walk(node)
+                        if not any(isinstance(p_, ast.Assign) and p_.value is x and isinstance(p_.targets[0], (ast.Tuple, ast.List))
+                                   for p_ in ast.walk(node)))
+            cl = UsedClient(names, alias, lit_only)
+            fi = M.FuncInfo(pf.file, pf.qualname, node, pf.cls_node, pf.module)
+            always = set()
+            for x in ast.walk(node):
+                it = None
+                if isinstance(x, (ast.For, ast.comprehension)):
+                    it = x.iter
+                elif isinstance(x, ast.Compare) and len(x.ops) == 1 and isinstance(x.ops[0], (ast.Eq, ast.In)) and \
+                        isinstance(A.const(x.comparators[0], None), (str, list, tuple)) or \
+                        (isinstance(x, ast.Compare) and isinstance(x.comparators[0], (ast.List, ast.Tuple))):
+                    it = x.left
+                if it is not None:
+                    for y in ast.walk(it):
+                        if isinstance(y, ast.Name):
+                            kk = int(y.id[7:]) if y.id.startswith("__item_") else alias.get(y.id)
+                            if kk is not None:
+                                always.add(kk)
+            # (an element that is an empty string needs no printing, so "holds content" is modelled as truthy)
+            env = {names[i]: (F.NONE if pat[i] else F.TRUTHY) for i in range(n)}
+            for i in range(n):
+                env["$u%d" % i] = F.FALSE
+            try:
+                UsedFlow(m, fi, cl).run(F.State(env))
+            except Exception as err:
+                r.error("%s.tostr: cannot interpret the printer (%s)" % (c["name"], err))
+                break
+            if whole:
+                continue
+            for unused, stmt in cl.exits:
+                for i in sorted(unused):
+                    if pat[i] or i not in carrying or (c["name"], i) in exceptions or i in always:
+                        continue
+                    bad.setdefault(i, (pat, stmt))
+        r.ob(not bad, "%s: %d patterns, every content element printed on every path" % (c["name"], len(pats)) if r.instances % 15 == 0 else None)
+        for i, (pat, stmt) in sorted(bad.items()):
+            r.fail("%s|unprinted-on-path|%d" % (c["name"], i), "%s.tostr: for the pattern %s the printer reaches `%s` without having printed items[%d], "
+                   "which holds content in that pattern: that part of the statement is missing from the regenerated source"
+                   % (c["name"], tuple("None" if b else "x" for b in pat), A.text(stmt)[:60], i), m.loc(pf, stmt))
     return r
